@@ -33,6 +33,9 @@ type Report struct {
 	Assumptions []string
 	start       time.Time
 	Extra       map[string]any
+	// obligations decided under the extra build configurations (thorough tier)
+	extraObligations int
+	extraDischarged  int
 }
 
 // NewReport starts a report.
@@ -232,7 +235,7 @@ func (r *Report) Finish(p *Prog, verifDir string, known []KnownFinding) int {
 		"obligations":         ndis + nviol + nknown,
 		"discharged":          ndis,
 		"known_findings":      nknown,
-		"evaluations":         ndis + nviol + nknown,
+		"evaluations":         ndis + nviol + nknown + r.extraObligations,
 		"distinct_nontrivial": len(distinct),
 		"rule":                "one obligation per (rule, construct) instance found in the current source; distinct = distinct (rule, construct) keys; observations are not counted",
 		"rules":               ruleRows,
@@ -255,7 +258,7 @@ func (r *Report) Finish(p *Prog, verifDir string, known []KnownFinding) int {
 		"assumptions": append([]string{
 			"A1: no unsafe / reflection-based field writes in scope",
 			"A2: dependencies (pion, mediacommon, gorilla, std) behave as documented",
-			"A3: linux/amd64 build configuration, no cgo, packages ., ./pkg/..., ./internal/...",
+			"A3: linux/amd64 build configuration (thorough tier: also linux/386, darwin/amd64, windows/amd64), no cgo, packages ., ./pkg/..., ./internal/...",
 		}, r.Assumptions...),
 		"wall_s":     time.Since(r.start).Seconds(),
 		"violations": nviol,
